@@ -41,6 +41,10 @@ CHECKS = {
    technique="TLA+ spec Plumbing.tla (write-ups of one tree+alignment related by rewrite actions; transcription of leaf indexing, post-order, keep_branch_lengths root merge + zero branch, Alignment sort, pattern compression) model-checked with TLC; emitted write-ups rendered to JSON and evaluated by the real TreeLikelihoodModel (equal values, predicted post-order / branch lengths / patterns / weights / tip vectors = real)",
    text="TLC explores every write-up reachable by up to 5 (thorough 6) rewrites (permute taxa, permute sequence list, swap children anywhere, permute columns, move the root across a branch) from three reference instances (4 and 5 taxa, ambiguity / gap symbols, repeated columns) and checks that the rewrites preserve the unrooted splits-with-lengths and the column multiset and that the transcribed plumbing delivers the same tree and data to the kernel; a sub-sample of the write-ups (every one a distinct JSON document) is evaluated by the real model under HKY / GTR with tip partials, ambiguities and tip states and must agree to 1e-10 and match the predicted indices, lengths, patterns and weights.",
    note="Reversible models only (on an UnRootedTreeModel the root sits on a root child, so non-reversible models are root-dependent by construction); codon `indices` slicing of SitePattern is not covered; replay is a sub-sample of the TLC-checked write-ups."),
+ "C03": dict(level="model_checking", design="4/C03",
+   technique="TLA+ spec Rescale.tla (switch-to-rescaling logic over magnitude classes of the smallest site likelihood, single and batched, all histories) model-checked with TLC; real evaluation histories recorded on one model object and validated by TraceRescale.tla (total validation); size sweep against an extended-range log-space pruning reference",
+   text="TLC checks Accurate / FiniteIfTrue / Sticky over all histories of 4 evaluations (single or batched mixtures of normal / subnormal / zero classes) for the switching policy the code follows (and flags the pinned-commit policy as a control); real TreeLikelihoodModels on 600-tip trees are driven through every class history of length <= 3 plus batched mixtures before and after the switch (tip partials and tip states), each event validated by TLC; a size sweep (8..800 tips, thorough ..1200; caterpillar / balanced / random; through both subnormal bands) compares every value at 1e-8 with the log-space reference.",
+   note="Reference = float64 log-space pruning with the implementation's own transition matrices (only range handling differs); float64 only; classes are measured by the reference, not assumed."),
 }
 
 PENDING = {}
